@@ -68,12 +68,35 @@ def reference_outcomes(w, workload, all_orders=False, **kw):
     return outs, ledger, ex
 
 
+def stale_redirect(trace):
+    """True iff the trace contains the history of the recorded 'stale CompleteTask(REDIRECT)' defect: the n-th
+    CompleteTask(REDIRECT) of a stage is delivered after the n-th JumpToStage of that stage was handled AND the
+    stage's task was started again in between.  (A REDIRECT wedge reached any other way is a different failure.)"""
+    ct, jumps = {}, {}
+    for i, t in enumerate(trace):
+        p = t.split(":")
+        if p[0] != "d" or len(p) < 3:
+            continue
+        if p[1] == "JumpToStage":
+            jumps.setdefault(p[2].split("->")[0], []).append(i)
+        elif p[1] == "CompleteTask" and t.split("(")[0].endswith("=REDIRECT"):
+            stage = p[2]
+            n = ct.get(stage, 0)  # this is the (n+1)-th REDIRECT completion of the stage
+            ct[stage] = n + 1
+            js = jumps.get(stage, [])
+            if len(js) > n and any(x.startswith(f"d:StartTask:{stage}:") for x in trace[js[n]:i]):
+                return True
+    return False
+
+
 def result_from(ex, prop_engine="e1", extra=None):
     res = ex.summary()
     viols = []
     for v in ex.violations:
         v = dict(v)
         v["signature"] = f"{prop_engine}:{v.get('sig')}"
+        if "REDIRECT" in str(v.get("sig")) and stale_redirect(v.get("trace") or ()):
+            v["signature"] += "@stale-redirect-after-restart"
         viols.append(v)
     res["violations"] = viols
     res["samples"] = ex.samples[:2]
